@@ -77,8 +77,10 @@ def podSelKeyOK (k : String) : Prop :=
 
 instance (k : String) : Decidable (podSelKeyOK k) := by unfold podSelKeyOK; infer_instance
 
-/-- Every operator is one of In / NotIn / Exists / DoesNotExist (Kubernetes validation). -/
-def LSel.opsOK (s : LSel) : Prop := ∀ e ∈ s.me, e.op ≠ .opOther
+/-- Kubernetes validation of matchExpressions: the operator is one of In / NotIn / Exists /
+DoesNotExist, and In / NotIn carry at least one value. -/
+def LSel.opsOK (s : LSel) : Prop :=
+  ∀ e ∈ s.me, e.op ≠ .opOther ∧ ((e.op = .opIn ∨ e.op = .opNotIn) → e.values ≠ [])
 
 def LSel.podKeysOK (s : LSel) : Prop :=
   (∀ kv ∈ s.ml, podSelKeyOK kv.1) ∧ (∀ e ∈ s.me, podSelKeyOK e.key)
@@ -129,11 +131,24 @@ theorem wepGet_ns (c : Cluster) (p : Pod) : wepGet c p labelNamespace = some p.n
 
 /-! ### k8sSelectorToCalico preserves the meaning of a LabelSelector -/
 
-theorem exprTerms_holds (get get' : String → Option String) (e : Expr) (hop : e.op ≠ .opOther)
+theorem exprTerms_holds (get get' : String → Option String) (e : Expr)
+    (hop : e.op ≠ .opOther ∧ ((e.op = .opIn ∨ e.op = .opNotIn) → e.values ≠ []))
     (hg : get' e.key = get e.key) :
     (exprTerms e).all (Term.holds get') = e.holds get := by
   rcases e with ⟨k, op, vs⟩
-  cases op <;> simp_all [exprTerms, Expr.holds, Term.holds]
+  obtain ⟨h1, h2⟩ := hop
+  have hv : (op = .opIn ∨ op = .opNotIn) → printedValues vs = vs := by
+    intro h
+    have := h2 h
+    cases vs with
+    | nil => exact absurd rfl this
+    | cons a b => rfl
+  cases op
+  · simp_all [exprTerms, Expr.holds, Term.holds]
+  · simp_all [exprTerms, Expr.holds, Term.holds]
+  · simp_all [exprTerms, Expr.holds, Term.holds]
+  · simp_all [exprTerms, Expr.holds, Term.holds]
+  · simp_all
 
 /-- The conjuncts produced for matchLabels + matchExpressions, evaluated through a label view `get'`
 that agrees with `get` on the selector's keys. -/
@@ -198,7 +213,7 @@ theorem selTerms_ne_nil (s : LSel) (hops : s.opsOK) (hne : ¬ (s.ml.isEmpty ∧ 
     | nil => rfl
     | cons e rest =>
       exfalso
-      have hop := hops e (by simp [hme])
+      have hop := (hops e (by simp [hme])).1
       rw [hme] at h2
       simp only [List.flatMap_cons, List.append_eq_nil_iff] at h2
       rcases e with ⟨k, op, vs⟩
